@@ -1,6 +1,7 @@
 package checks
 
 import (
+	validate "buf.build/gen/go/bufbuild/protovalidate/protocolbuffers/go/buf/validate"
 	"fmt"
 	"sort"
 	"strings"
@@ -197,8 +198,7 @@ func c18(c *Ctx) {
 			cases = append(cases, reqCase{ID: "shape/" + sc.ID, Files: sc.Files, Gen: sc.Gen})
 		}
 	}
-	cases = append(cases, examplesByKindCases()...)
-	cases = append(cases, yamlRetypeCase(), importedMessagesCase(), threeServicesCase(), yaml11NamesCase(), sameShortNameCase("nested"), sameShortNameCase("top-vs-nested"), sameShortNameCase("imported"), discVariantTypesCase(false), discVariantTypesCase(true), pathVariableSpellingsCase())
+	cases = append(cases, yamlRetypeCase(), importedMessagesCase(), threeServicesCase(), yaml11NamesCase(), sameShortNameCase("nested"), sameShortNameCase("top-vs-nested"), sameShortNameCase("imported"), discVariantTypesCase(false), discVariantTypesCase(true), pathVariableSpellingsCase(), paramNameInTwoLocationsCase())
 	plugin.Parallel(len(cases), 16, func(i int) {
 		rc := cases[i]
 		base := "oas/" + rc.ID
@@ -510,6 +510,9 @@ func examplesByKindCases() []reqCase {
 		// whole numbers between 2^63 and 2^64 that no double represents exactly (hashes, trace ids, the uint64 maximum)
 		{"above-int64-integers", []string{"18446744073709551615", "9223372036854775808", "14695981039346656037", "17293822569102704643"}},
 		{"int64-edges", []string{"9223372036854775807", "-9223372036854775808", "9007199254740993", "-9007199254740993"}},
+		// digits with a leading zero: postal codes, phone prefixes, account numbers (not octal when they hold 8 or 9,
+		// not an integer when longer than 64 bits)
+		{"zero-led-digit-strings", []string{"08901", "0049", "0800", "0012345678901234567890", "09", "00", "0777"}},
 		{"ordinary", []string{"1", "2.5", "true", "abc"}},
 	}
 	var out []reqCase
@@ -535,8 +538,12 @@ func examplesByKindCases() []reqCase {
 				add(spec.F("number_"+kn, num, k).With(func(a *spec.Ann) { a.Int64Enc = 2 }))
 			}
 		}
+		// the same texts as a header example and as the members of a string `in` rule
+		m.Fields = append(m.Fields, spec.F("picked", num, spec.String).With(func(a *spec.Ann) {
+			a.Rules = &validate.FieldRules{Type: &validate.FieldRules_String_{String_: &validate.StringRules{In: append([]string(nil), g.texts...)}}}
+		}))
 		f.Messages = []*spec.Message{m}
-		f.Services = []*spec.Service{{Name: fmt.Sprintf("ExampleKind%dService", gi), Methods: []*spec.Method{{Name: "Call", In: "." + pkg + ".Sample", Out: "." + pkg + ".Sample", HTTP: &spec.HTTP{Path: "/exk", Verb: 2}}}}}
+		f.Services = []*spec.Service{{Name: fmt.Sprintf("ExampleKind%dService", gi), Headers: []spec.Header{{Name: "X-Sample", Type: "string", Example: g.texts[0], Description: "sample " + g.texts[0]}}, Methods: []*spec.Method{{Name: "Call", In: "." + pkg + ".Sample", Out: "." + pkg + ".Sample", HTTP: &spec.HTTP{Path: "/exk", Verb: 2}}}}}
 		out = append(out, reqCase{ID: "examples-by-kind/" + g.id, Files: []*spec.File{f}})
 	}
 	return out
@@ -588,6 +595,25 @@ func pathVariableSpellingsCase() reqCase {
 		{Name: "ByMixed", In: in("ByMixed"), Out: in("PVResp"), HTTP: &spec.HTTP{Path: "/e/{user_id}/{postId}/{slug}", Verb: 2}},
 	}}}
 	return reqCase{ID: "path-variable-spellings", Files: []*spec.File{f}}
+}
+
+// paramNameInTwoLocationsCase: one request message shared by a collection route and an item route; the field
+// that the item route binds to its path variable is a query filter (same parameter NAME) on the collection
+// route, and a header shares its name with a query parameter. A parameter is identified by (name, location).
+func paramNameInTwoLocationsCase() reqCase {
+	pkg := "c18.twoloc"
+	f := &spec.File{Path: "c18/twoloc.proto", Package: pkg, GoImport: "lab/gen/c18tl", GoName: "c18tl"}
+	f.Messages = []*spec.Message{
+		{Name: "ItemRequest", Fields: []*spec.Field{spec.F("id", 1, spec.String).Q("id"), spec.F("owner", 2, spec.String).Q("owner"), spec.F("x_trace", 3, spec.String).Q("X-Trace")}},
+		{Name: "Item", Fields: []*spec.Field{spec.F("id", 1, spec.String)}},
+	}
+	in, out := "."+pkg+".ItemRequest", "."+pkg+".Item"
+	f.Services = []*spec.Service{{Name: "TwoLocationService", BasePath: spec.S("/api/v1"), Headers: []spec.Header{{Name: "X-Trace", Type: "string", Required: true}, {Name: "owner", Type: "string"}}, Methods: []*spec.Method{
+		{Name: "ListItems", In: in, Out: out, HTTP: &spec.HTTP{Path: "/items", Verb: 1}},
+		{Name: "GetItem", In: in, Out: out, HTTP: &spec.HTTP{Path: "/items/{id}", Verb: 1}},
+		{Name: "DeleteItem", In: in, Out: out, HTTP: &spec.HTTP{Path: "/items/{id}/owner/{owner}", Verb: 4}},
+	}}}
+	return reqCase{ID: "param-name-in-two-locations", Files: []*spec.File{f}}
 }
 
 // yaml11NamesCase uses field / parameter names that YAML 1.1 readers resolve as booleans.
